@@ -1,0 +1,21 @@
+//go:build verif
+
+package executor
+
+import (
+	ds "github.com/ipfs/go-datastore"
+)
+
+// This file is compiled only with the `verif` build tag. It lets the deterministic-simulation
+// harness run the executor over an injected datastore and close/reopen it in-process.
+
+// NewKVExecutorWithDB builds an executor over the given datastore.
+func NewKVExecutorWithDB(db ds.Batching) *KVExecutor {
+	return &KVExecutor{
+		db:     db,
+		txChan: make(chan []byte, txChannelBufferSize),
+	}
+}
+
+// VerifClose closes the underlying datastore.
+func (k *KVExecutor) VerifClose() error { return k.db.Close() }
